@@ -1384,8 +1384,11 @@ def gen_cases(ck, info):
         sub = [c for c in sub if natural_count(c["ctor"], c) >= 3] or sub
         if not sub:
             continue
+        # full sweeps in the first defining module of the constructor (and everywhere in the thorough tier); the
+        # other modules run the same `subgraph()`: every bad element once, one malformed result per setting
+        full_sweep = ck.thorough or mod_ctor[0] == (defs0.get(mod_ctor[1]) or [mod_ctor[0]])[0]
         for bad in BAD_ELEMS:
-            for pos in range(3):
+            for pos in (range(3) if full_sweep else [rng.randrange(3)]):
                 c = dict(rng.choice(sub))
                 roles = list(c["cbs"])
                 cbs = {r2: dict(c["cbs"][r2]) for r2 in roles}
@@ -1396,7 +1399,8 @@ def gen_cases(ck, info):
                 cases.append(c)
         # the verdict on a malformed result must not depend on the scoped settings in force at the call
         for amb in AMBIENTS[1:]:
-            for bad in ["int", "float", "none", "str", "listOfVars", "tupleOfVars", "emptyList"]:
+            bads_ = ["int", "float", "none", "str", "listOfVars", "tupleOfVars", "emptyList"]
+            for bad in (bads_ if full_sweep else [rng.choice(bads_)]):
                 c = dict(rng.choice(sub))
                 roles = list(c["cbs"])
                 cbs = {r2: dict(c["cbs"][r2]) for r2 in roles}
@@ -1406,7 +1410,7 @@ def gen_cases(ck, info):
                 c["cbs"] = cbs
                 c["ambient"] = amb
                 cases.append(c)
-            for variant in range(7):  # bare scalars / None / a single Var / 0-d array / bytes / str as the whole result
+            for variant in (range(7) if full_sweep else [rng.randrange(7)]):  # bare scalars / None / a Var / 0-d array / bytes / str
                 c = dict(rng.choice(sub))
                 roles = list(c["cbs"])
                 cbs = {r2: dict(c["cbs"][r2]) for r2 in roles}
@@ -1420,6 +1424,12 @@ def gen_cases(ck, info):
                 c = dict(rng.choice(sub))
                 c["cbs"] = {r2: dict(c["cbs"][r2], container=cont) for r2 in c["cbs"]}
                 cases.append(c)
+    # a memoising callable answers a second call with equal arguments from its cache (its body is legitimately not
+    # re-entered): where one callable object is called more than once, use the plain form
+    for c in cases:
+        if c.get("repeat", 1) > 1 or c.get("same_cb"):
+            if any(cb.get("form") == "lru_cache" for cb in c["cbs"].values()):
+                c["cbs"] = {r_: (dict(cb_, form="exact_def") if cb_.get("form") == "lru_cache" else cb_) for r_, cb_ in c["cbs"].items()}
     return cases
 
 
